@@ -550,6 +550,6 @@ func Main() {
 		Run:            run,
 		Replay:         replay,
 		QuickBudget:    130 * time.Second,
-		ThoroughBudget: 30 * time.Minute,
+		ThoroughBudget: 80 * time.Minute,
 	})
 }
